@@ -506,14 +506,20 @@ func setFieldFromString(field reflect.Value, fieldType reflect.Type, s string) e
 	switch fieldType.Kind() {
 	case reflect.String:
 		field.SetString(s)
-	case reflect.Int64, reflect.Int:
-		v, err := strconv.ParseInt(s, 10, 64)
+	case reflect.Int64, reflect.Int, reflect.Int32, reflect.Int16, reflect.Int8:
+		v, err := strconv.ParseInt(s, 10, fieldType.Bits())
 		if err != nil {
 			return fmt.Errorf("parsing int default %q: %w", s, err)
 		}
 		field.SetInt(v)
-	case reflect.Float64:
-		v, err := strconv.ParseFloat(s, 64)
+	case reflect.Uint64, reflect.Uint, reflect.Uint32, reflect.Uint16, reflect.Uint8:
+		v, err := strconv.ParseUint(s, 10, fieldType.Bits())
+		if err != nil {
+			return fmt.Errorf("parsing uint default %q: %w", s, err)
+		}
+		field.SetUint(v)
+	case reflect.Float64, reflect.Float32:
+		v, err := strconv.ParseFloat(s, fieldType.Bits())
 		if err != nil {
 			return fmt.Errorf("parsing float default %q: %w", s, err)
 		}
